@@ -66,6 +66,11 @@ def run(F, chk):
     if m is None or not ser or fj is None:
         F3.violation(('anchor-lost', 'Filter::matches/Serialize/from_json'), 'cannot find Filter::matches, impl Serialize for Filter or Filter::from_json')
         return
+    del HELPERS_OF_MATCHES[:]
+    for blk in m.calls():
+        tgt = F.get(blk.term.callee.path)
+        if tgt is not None and tgt.crate == 'lib' and tgt.path.startswith('adlt::filter::') and tgt.kind != 'closure' and tgt.path != m.path:
+            HELPERS_OF_MATCHES.append(tgt)
     check_matches_shape(m, F3)
     F4 = chk.rule('F4', 'matches() never substitutes a default for an unspecified criterion (no unwrap_or/map_or on a criterion option)')
     check_no_defaults(m, F4)
@@ -75,6 +80,9 @@ def run(F, chk):
     check_short_forms(ser[0], fj, F5)
     F6 = chk.rule('F6', 'text front-ends: a [u8; N] scratch buffer is re-initialised on every path between two consumptions (no bytes of the previous id leak)')
     check_scratch_buffers(F, F6)
+
+
+HELPERS_OF_MATCHES = []
 
 
 def check_matches_shape(m, F3):
@@ -153,7 +161,16 @@ def check_matches_shape(m, F3):
             F3.violation(('missing-header-passes', m.path, b.term.callee.path.split('::')[-1]),
                          'when %s() is None (message without extended header) the criterion at %s does not return `negated`: such a message could pass an apid/ctid/type/level criterion' % (b.term.callee.path.split('::')[-1], m.loc(b.term.sp)),
                          where=m.loc(b.term.sp))
-    F3.floor('extended-header accessor calls in matches()', n_acc, 5)
+    # criteria checks may live in private helpers of the filter module (`fn msg_matches_verb_mstp_mtin(..)`): count their
+    # accessor calls as well so that extracting a helper does not look like a lost anchor
+    n_helper = 0
+    try:
+        import facts as _f
+    except Exception:
+        _f = None
+    for hb in HELPERS_OF_MATCHES:
+        n_helper += sum(1 for x in hb.calls() if x.term.callee.path in HDR_ACCESSORS)
+    F3.floor('extended-header accessor calls in matches() and its helpers', n_acc + n_helper, 5)
 
 
 def json_keys(body, callee_suffix, argidx):
